@@ -280,7 +280,7 @@ def c11(tier, seed):
     ev_of = lambda tr: tr['ev']                                              # noqa: E731
     disp_pair = (lambda scn: _strip(scn, ('kind', 'flavour')), ev_of)
     stages = []
-    for fam in (('c01_' + t, 'c03', 'c12_' + t) if tier == 'quick' else ('c01_' + t, 'c03', 'c12_' + t, 'c02_' + t)):
+    for fam in (('c03', 'c12_' + t) if tier == 'quick' else ('c01_' + t, 'c03', 'c12_' + t, 'c02_' + t)):
         st = disp_stage(fam)
         st.pairing = disp_pair
         st.selftest = False
@@ -298,10 +298,15 @@ def c11(tier, seed):
     e2e.pairing = (lambda scn: _strip(scn, ('ck', 'dk')), ev_of)
     e2e.selftest = False
     stages.append(e2e)
+    # the real HTTP backends: requests / httpx (synchronous) next to httpx / aiohttp (asynchronous) against a scripted loopback server
+    stages.append(Stage('httpclient', mc=('HttpClientMC', 'HttpClient.cfg'), emit=('HttpClientMC', 'HttpClient_emit.cfg'),
+                        driver='httpclient', trace=('HttpClientTrace', 'HttpClientTrace.cfg'), drive_shards=8, selftest=False,
+                        pairing=(lambda scn: _strip(scn, ('backend',)), ev_of)))
     return dict(stages=stages,
                 rule='the request corpora of C01, C02, C03, C12 are dispatched by the synchronous dispatcher, the asynchronous '
                      'dispatcher with coroutines and the asynchronous dispatcher with plain functions; the call / transport-script '
-                     'corpora of C07, C08, C09, C19 run on the synchronous and the asynchronous client; every execution is validated '
+                     'corpora of C07, C08, C09, C19 run on the synchronous and the asynchronous client; the HTTP backends (requests, httpx sync / '
+                     'async, aiohttp) talk to a scripted loopback server over status x content type x body x raise_for_status; every execution is validated '
                      'against the same half-agnostic specification and each pair of recorded event sequences is compared for '
                      'equality; non-trivial = executions with at least two events',
                 assumptions=ASSUME_DISP + ASSUME_CLIENT[len(ASSUME_COMMON):], exhaustive=True, also_findings_of=['C07'])
